@@ -48,10 +48,11 @@ class Matrix3(Matrix):
             if isinstance(arg, Qube.QUATERNION_CLASS):
                 return arg.to_matrix3(recursive=recursive)
 
-            arg = Matrix3(arg._values_, arg._mask_, example=arg)
+            obj = Matrix3(arg._values_, arg._mask_, example=arg)
             if recursive:
-                return arg
-            return arg.wod
+                for (key, deriv) in arg._derivs_.items():
+                    obj.insert_deriv(key, Matrix.as_matrix(deriv, recursive=False))
+            return obj
 
         return Matrix3(arg)
 
